@@ -71,6 +71,10 @@ def mk_value(name, target):
         return OPAQUE, OPAQUE, True
     if name == 'spec':
         return Spec(Val(('sv', 1))), ('sv', 1), False
+    if name == 'T':
+        return T, target, True                       # the value depends on the target of the Assign: the target itself is stored
+    if name == 'tlist':
+        return [T, 'lit'], [target, 'lit'], False
     if name == 'list':
         return [1, [2]], [1, [2]], False
     if name == 'cyc':
@@ -159,7 +163,7 @@ def run_case(case):
     steps = steps_for(spelling, kinds, leaf, segs, mkind)
     if any(op == '.' and not (isinstance(a, str) and a.isidentifier()) for op, a in steps):
         return R(None, 'n/a', nontrivial=False)
-    _, rstored, by_id = mk_value(vname, rt)
+    _, rstored, by_id = mk_value(vname, 'unused-target' if spelling == 'sroot' else rt)     # T in the value is the target of the glom call
     try:
         ref_assign(rt, steps, rstored, rfactory)
         want = 'ok'
@@ -169,7 +173,7 @@ def run_case(case):
     t, nodes = MR.build(kinds, leaf)
     before = MR.canon(t)
     factory, _ = mk_missing(mname)
-    val, stored, by_id = mk_value(vname, t)
+    val, stored, by_id = mk_value(vname, 'unused-target' if spelling == 'sroot' else t)
     path = mk_path(spelling, steps)
     kwargs = {} if factory is None else {'missing': factory}
     try:
@@ -235,7 +239,7 @@ def run_case(case):
 EXTRAS = [['n'], ['k'], ['s'], ['0'], ['1'], ['-2'], ['-3'], ['-4'], ['-5'], ['5'], ['x'], ['ro'], ['n', 'm'], ['n', '0'], ['5', 'n'], ['zz', 'k'], ['n', 'm', 'o'], ['n', '0', 'p']]
 SPELLINGS = ['text', 'path', 'tnat', 'mixed', 'sroot', 'tflip']
 MISSING = [None, 'dict', 'list', 'obj', 'count', 'countobj', 'raise1', 'raise2']
-VALUES = ['lit', 'opaque', 'spec', 'list', 'cyc']
+VALUES = ['lit', 'opaque', 'spec', 'list', 'cyc', 'T', 'tlist']
 
 
 def gen_cases(tier):
@@ -256,7 +260,7 @@ def gen_cases(tier):
                             for mname in MISSING:
                                 if len(extra) == 1 and j == L and mname in ('count', 'countobj', 'raise2', 'obj') and tier == 'quick':
                                     continue
-                                values = VALUES if (L <= 1 or tier != 'quick') else ['lit', 'spec']
+                                values = VALUES if (L <= 1 or tier != 'quick') else ['lit', 'spec', 'tlist']
                                 for vname in values:
                                     forms = ('func', 'spec') if vname == 'lit' else ('func',)
                                     for form in forms:
